@@ -588,19 +588,6 @@ let rec first_waiting g = function
    | Some x -> if is_waiting x.f_state then Some (f, w) else first_waiting g t
    | None -> first_waiting g t)
 
-(** val scan_bad : (n -> fut option) -> (n * n) list -> bool **)
-
-let rec scan_bad g = function
-| [] -> false
-| p :: t ->
-  let (f, _) = p in
-  (match g f with
-   | Some x ->
-     if is_waiting x.f_state
-     then negb x.f_live
-     else (||) (negb x.f_live) (scan_bad g t)
-   | None -> true)
-
 (** val remove_first : n -> (n * n) list -> (n * n) list **)
 
 let rec remove_first f = function
@@ -629,30 +616,30 @@ let rec set_waker f w = function
 (** val wake_one_recv : st -> st **)
 
 let wake_one_recv s =
-  let s0 = mark_bad (scan_bad (fun f -> getF f s) s.arq) s in
-  (match first_waiting (fun f -> getF f s0) s0.arq with
-   | Some p ->
-     let (f, w) = p in
-     (match getF f s0 with
-      | Some x ->
-        wake w
-          (with_arq (remove_first f s0.arq) (setF f (set_state Success x) s0))
-      | None -> s0)
-   | None -> s0)
+  match first_waiting (fun f -> getF f s) s.arq with
+  | Some p ->
+    let (f, w) = p in
+    (match getF f s with
+     | Some x ->
+       wake w
+         (with_arq (remove_first f s.arq)
+           (setF f (set_state Success x) (mark_bad (negb x.f_live) s)))
+     | None -> s)
+  | None -> s
 
 (** val wake_one_send : st -> st **)
 
 let wake_one_send s =
-  let s0 = mark_bad (scan_bad (fun f -> getF f s) s.asq) s in
-  (match first_waiting (fun f -> getF f s0) s0.asq with
-   | Some p ->
-     let (f, w) = p in
-     (match getF f s0 with
-      | Some x ->
-        wake w
-          (with_asq (remove_first f s0.asq) (setF f (set_state Success x) s0))
-      | None -> s0)
-   | None -> s0)
+  match first_waiting (fun f -> getF f s) s.asq with
+  | Some p ->
+    let (f, w) = p in
+    (match getF f s with
+     | Some x ->
+       wake w
+         (with_asq (remove_first f s.asq)
+           (setF f (set_state Success x) (mark_bad (negb x.f_live) s)))
+     | None -> s)
+  | None -> s
 
 (** val mark_all : wst -> (n * n) list -> st -> st **)
 
@@ -663,11 +650,12 @@ let rec mark_all new0 l s =
     let (f, w) = p in
     (match getF f s with
      | Some x ->
-       let s0 = mark_bad (negb x.f_live) s in
        if is_waiting x.f_state
-       then mark_all new0 t (wake w (setF f (set_state new0 x) s0))
-       else mark_all new0 t s0
-     | None -> mark_all new0 t (mark_bad true s))
+       then mark_all new0 t
+              (wake w
+                (setF f (set_state new0 x) (mark_bad (negb x.f_live) s)))
+       else mark_all new0 t s
+     | None -> mark_all new0 t s)
 
 type tsr =
 | TsOk
@@ -761,11 +749,12 @@ let close_rx s =
                 let (f, w) = p in
                 (match getF f s0 with
                  | Some x ->
-                   let s1 = mark_bad (negb x.f_live) s0 in
                    if is_waiting x.f_state
-                   then wake w (setF f (set_state Success x) s1)
-                   else s1
-                 | None -> mark_bad true s0)))
+                   then wake w
+                          (setF f (set_state Success x)
+                            (mark_bad (negb x.f_live) s0))
+                   else s0
+                 | None -> s0)))
 
 (** val do_close : n -> handle -> st -> st * res **)
 
@@ -939,8 +928,7 @@ let step s0 o =
         then ret s RNoHandle
         else if (||) (negb x.h_tx) x.h_async
              then ret s RWrongKind
-             else if (&&) ((&&) (negb x.h_closed) (negb (N.eqb s.rc N0)))
-                       (is_full s)
+             else if (&&) (negb (N.eqb s.rc N0)) (is_full s)
                   then ret s RWouldBlock
                   else let (v, s1) = fresh s in
                        if x.h_closed
@@ -957,7 +945,7 @@ let step s0 o =
         then ret s RNoHandle
         else if (||) x.h_tx x.h_async
              then ret s RWrongKind
-             else if (&&) ((&&) (negb x.h_closed) (N.eqb (lenq s) N0))
+             else if (&&) (N.eqb (lenq s) N0)
                        (negb
                          ((&&) (N.eqb s.sc N0)
                            (match s.asq with
